@@ -41,11 +41,23 @@ def genOps2 : List (String × R String) := [
   ("g:convertbits", do let d ← listOf int; let f ← int; let t ← int; let p ← bool; pure (ans (optS ints) (Gen.convertbits d f t p)))
 ]
 
+def pt : R (Option (Int × Int)) := do
+  let f ← nat
+  if f == 0 then pure none else do let x ← int; let y ← int; pure (some (x, y))
+def ptS : Option (Int × Int) → String | none => "0" | some (x, y) => s!"1 {x} {y}"
+
+def genOps3 : List (String × R String) := [
+  ("g:pt_add", do let a ← pt; let b ← pt; pure (ans ptS (Gen.schnorr_point_add a b))),
+  ("g:pt_mul", do let a ← pt; let k ← int; pure (ans ptS (Gen.schnorr_point_mul a k))),
+  ("g:lift_x", do let x ← int; pure (ans ptS (Gen.schnorr_lift_x x))),
+  ("g:even_y", do let a ← pt; pure (ans (fun (b : Bool) => if b then "1" else "0") (Gen.schnorr_has_even_y a)))
+]
+
 def handle (line : String) : String :=
   match (line.splitOn " ").filter (· ≠ "") with
   | [] => "bad-op"
   | op :: args =>
-    match (genOps ++ genOps2).lookup op with
+    match (genOps ++ genOps2 ++ genOps3).lookup op with
     | none => "bad-op"
     | some f =>
       match f.run args with
